@@ -142,12 +142,21 @@ CHECKS = {'C01': {'text': 'MODELLED: Lex.lean (Lexer.__next__ and every _read_*,
                  'graphql_blocking, process_graphql_query (generic Executor) and py_gql.graphql on an asyncio loop whose coroutine resolvers complete in '
                  'reverse / mixed / hashed order, each compared with the specification (ordered data, error multiset); generated classes leading-node and '
                  'same-key-groups (gen/leading_node.py: one field node heading two different merged node lists, several merged groups of one type in sequence) '
-                 'on a fixed schema and on every generated schema, under fixed worlds.',
+                 'on a fixed schema and on every generated schema, under fixed worlds. ADDED IN THE BUG-HUNT ROUNDS: AFTER THE AUDIT (C04-F1/F2/F3): '
+                 'serializeInt of a bool is the integer 1 / 0 as /repo HEAD (d72dd53) in the model and in the Python reference (fixed case '
+                 'bool-at-int-position of the default-resolver stream; json.dumps tells true from 1); history_independent and exec_deterministic are '
+                 'documented as true by construction (the tie is the history stream); errors_at_or_below_nulls is null_error_bijection under an honest name - '
+                 'the statement is one-directional, the global converse is open. Named probes of two outside reports (corr/C04_hunt1.py, no randomness): '
+                 "exponential fragment expansion in the executor's collect_fields (node multiplicity 2**n at n = 6, 9, 12 on a validated document with ONE "
+                 'field node) and `@skip(if: true)` next to an `@include` that cannot be coerced (field / inline fragment / spread, both executors).',
          'note': "Trusted: Lean kernel; generators; 'the Document is never written' and 'one executor per request' are tied to the code by the to_dict() "
                  "before/after oracle and the history streams; `__schema`/`__type` are C15's model. Known finding H4 (generic Executor RecursionError from "
                  'depth 77 through [T!]!). Repaired: H2 (defaults handed out uncopied), H5 (argument values shared between executions), H6 (arguments named '
                  'root/context/info). The asyncio slice makes completion order a function of the request with `await asyncio.sleep(0)` (all completion orders, '
-                 "thread pools: C08). TypesWf (null_error_bijection) follows from the computable typesWfB the driver evaluates (C05's typesWf_of_check).",
+                 "thread pools: C08). TypesWf (null_error_bijection) follows from the computable typesWfB the driver evaluates (C05's typesWf_of_check). Known "
+                 'findings H14 (collect_fields expands a fragment once per sibling inline spread while the visited set is empty: 2**n nodes, the 1.7 kB '
+                 'document with n = 30 is never answered; the one-line repair contradicts the modelled `_seen_fragments` quirk), H15 (both directives are '
+                 'evaluated eagerly, so a true @skip does not protect from an uncoercible @include; the repair changes modelled behaviour of C04 / C19).',
          'technique': 'Lean 4 proof (executor model = spec, acyclic => responds, bijection, locality, history independence) + world-resolver correspondence'},
  'C05': {'text': 'validated_no_internal_error (full): under SchemaOk, the declarative ValidDoc (fields exist, leaf <=> no sub-selection, type conditions '
                  'composite, spreads defined, fragments well-typed, acyclic and uniquely named), MergeSafe (the declarative form of '
@@ -171,14 +180,40 @@ CHECKS = {'C01': {'text': 'MODELLED: Lex.lean (Lexer.__next__ and every _read_*,
                  "(execute_lists_builtins, worldTyped_withBuiltins); rules_accept_ranked / rules_accept_refines_spec hand C04's refinement theorem its only "
                  'hypothesis. Deterministic classes under FIXED worlds: divergent-args, leading-node / same-key-groups (gen/leading_node.py), '
                  'exclusive-then-strict (gen/overlap_memo.py: a (selection set, fragment) pair compared first under exclusive parents, then strictly), '
-                 'rootless operations, scale probes at depth 50 (must pass) and 200.',
+                 'rootless operations, scale probes at depth 50 (must pass) and 200. ADDED IN ROUND ex2: MergeSafe is NO LONGER A HYPOTHESIS - '
+                 "mergeSafe_of_clause derives it from the clause of 5.3.2 on the validator's document (scope correspondence executor scope -> fields the "
+                 "validator's search collects: Lemmas/C05MergeScope.lean scope_coll; _same_arguments on distinct argument names => equal coerced argument "
+                 'tables: Lemmas/C05MergeArgs.lean argsTable_of_sameArguments; overlapping parents are not mutually exclusive: not_exclusive_of_overlap; '
+                 "_types_conflict = false on output types is sameShape; termination by C04's Ranked depth), mergeSafe_of_silent from the silent MEMOISED "
+                 "overlap search /repo runs (C06's rule_overlapping_fields_memo_iff_wf) plus the clauses of seven other silent rules, and "
+                 'accepted_cannot_go_wrong_merged: all 26 rule visitors silent (C06.SilentM) => no internal exception, without MergeSafe. '
+                 'parsed_names_nonempty / lexed_names_nonempty: fragment names, aliases, field and spread names of parse(text) (lexer model + parser model, '
+                 'all flags) are non-empty. accepted_cannot_go_wrong_merged_executed / accepted_cannot_go_wrong_computable: the same about the description the '
+                 'driver executes, every hypothesis except WorldTyped a computable check (schemaChecksB, fieldOwnersB, docChecksB = wfIdsB + noMetaSubsB + '
+                 'aliasesB + non-empty fragment names + noIntrospectionB, each with a soundness lemma). The translation eDoc (validator-side document -> '
+                 'executor-side document) on which the whole chain is stated is now a model file (ExecOfValidate.lean) and the driver op `edoc` checks, for '
+                 'every accepted document, that eDoc of the validator-side JSON IS the document the driver executes (field locations apart) and that '
+                 'docChecksB holds. New fixed class lookalike-member (a fragment on an interface must not apply to a union member with a same-named field that '
+                 "does not implement it: mutation M4 had been missed by C04 and C05). C05-1 of the hunter is C17's documented refusal (nothing added). AFTER "
+                 'THE AUDIT (C05-F1..F5): accepted_responds_computable (positive half: a response exists for some fuel, is fuel-independent and is not an '
+                 'internal exception), accepted_same_key_unambiguous, and Props/C05_nocrash.lean: the FULL statement ValidateNeverCrashes (the chain /repo '
+                 "runs never ends in a crash) is NOT proved; of the model's five crash sites two are closed (check_scalar_never_raises: dead code; "
+                 "cycle_report_never_raises under NoSelf), the overlap search alone is C06's overlap_memo_run_never_crashes, the two stack sites "
+                 '(KnownDirectives, UniqueInputFieldNames) and the chain lift are open.',
          'note': 'Trusted: Lean kernel; generators. `__schema`/`__type` selections are outside this executor model (C15). The 26 rules themselves belong to '
                  'C06. Repaired on the way: V1, V2, V7, D1 (directive condition null at run time), E1. Known finding H2 (RecursionError on a flat chain of '
                  "about 975 fragments). Repaired: H1 (selected_fields strictness), overlap memo (RecursionError on a cycle through a field's sub-selection). "
-                 "Still hypotheses of the chain: MergeSafe (declarative overlap rule on the executor's document; evaluated by the driver on every accepted "
-                 'document, NOT yet derived from the silent OverlappingFieldsCanBeMerged visitor), NoIntrospection, non-empty fragment names (parser), '
-                 'WorldTyped (part of the statement). Known findings H13a (validate_ast RecursionError from ~150 nesting levels of selection sets / ~200 of '
-                 'input object literals), H13b (generic Executor RecursionError on a 200-fragment field-nested chain that validates).',
+                 "Hypotheses left in accepted_cannot_go_wrong_merged: NoIntrospection (`__schema` / `__type` are C15's model; `__typename` IS inside the "
+                 "theorem), non-empty fragment names and aliases (parser guarantee: parsed_names_nonempty proves it for the parser MODEL's documents; the "
+                 "validator's documents are built by the harness from the real parser's tree, so the transport is not a Lean statement), FieldOwners (only "
+                 'object / interface types carry fields: fieldOwnersB, evaluated by the driver on every schema), DocChecksMemo (distinct selection-set '
+                 "identities, no meta field with a sub-selection: the two static checks of C06's rule_overlapping_fields_memo_iff_wf), WorldTyped (part of the "
+                 "statement). Residuals named by the audit: 'validation never raises' has no theorem for the chain (ValidateNeverCrashes open; tied by the "
+                 'validate-raises oracle); the premise SilentM is per rule ALONE and ignores the crash flag (premise side: the theorem covers more documents; '
+                 "the link from the real chain's verdict is C06's open chain-level statement); Exec.argsEntry folds internal / fuel failures of argument "
+                 'coercion into a field error, so the conclusion is silent about exceptions inside coerce_argument_values (correspondence only). Known '
+                 'findings H13a (validate_ast RecursionError from ~150 nesting levels of selection sets / ~200 of input object literals), H13b (generic '
+                 'Executor RecursionError on a 200-fragment field-nested chain that validates).',
          'technique': "Lean 4 proof (type soundness of the executor model under the validator's guarantees) + adversarial validate/execute oracle"},
  'C06': {'text': "MODELLED: the whole validation chain - TypeInfoVisitor's stacks (list-item types included), ChainedVisitor with the repaired SkipNode "
                  'semantics, all 26 rule visitors with their accumulators, VariablesCollector (fixes V3/V4), the fragment-cycle search, and the field-merge '
